@@ -25,6 +25,7 @@ import time
 import numpy as np
 import torch
 
+from vk import ops_soft as OS
 from vk import spec as SP
 from vk import sym as S
 from vk.harness import ObResult, obligation
@@ -295,7 +296,7 @@ def _b(v):
 
 def boxplus(a, b):
     """2 atanh(tanh(a/2) tanh(b/2)) with tanh / atanh the axiomatised real functions of DESIGN 4.3"""
-    return S.mul(2, S.uf_apply("atanh", S.mul(S.uf_apply("tanh", S.div(a, 2)), S.uf_apply("tanh", S.div(b, 2)))))
+    return S.mul(2, S.uf_apply("atanh", OS.rmul(S.uf_apply("tanh", S.div(a, 2)), S.uf_apply("tanh", S.div(b, 2)))))
 
 
 def g_node(a, b, u):
@@ -357,7 +358,7 @@ def sc_decoder(cfg, regime, clip=None):
     return _SC[key]
 
 
-def _sc_cfgs(tier):
+def _sc_cfgs(tier, regimes=("min_sum", "sum_product")):
     """(polar cfg..., regime)"""
     nmax = 8 if tier == "quick" else 16
     out = []
@@ -366,30 +367,29 @@ def _sc_cfgs(tier):
         ks = range(1, N) if N <= 8 else (1, 4, 8, 11, 15)
         for k in ks:
             for fz, pi in ((0, 0), (1, 1)) + (((0, 1), (1, 0)) if (tier == "thorough" or N <= 4) else ()):
-                for regime in ("min_sum", "sum_product"):
+                for regime in regimes:
                     out.append(Cfg("polar", N, k, fz, pi, None, regime))
         N *= 2
-    out.append(Cfg("polar", 8, 3, 0, 0, user_mask(8, 3, 0), "min_sum"))
-    out.append(Cfg("polar", 8, 5, 1, 1, user_mask(8, 5, 1), "sum_product"))
+    if "min_sum" in regimes:
+        out.append(Cfg("polar", 8, 3, 0, 0, user_mask(8, 3, 0), "min_sum"))
+    if "sum_product" in regimes:
+        out.append(Cfg("polar", 8, 5, 1, 1, user_mask(8, 5, 1), "sum_product"))
     return out
 
 
-@obligation(
-    "C11.sc_equals_textbook",
-    function=FSC + ":SuccessiveCancellationDecoder.forward; " + FSC + ":SuccessiveCancellationDecoder.decode_recursive; " + FSC + ":SuccessiveCancellationDecoder.checknode; "
-    + FSC + ":SuccessiveCancellationDecoder.bitnode; " + FSC + ":SuccessiveCancellationDecoder.f2; " + FU + ":min_sum; " + FU + ":sum_product; " + FU + ":sign_to_bin",
-    configs=_sc_cfgs,
-    timeout_ms=60000,
-    crosscheck=3,
+_SC_FUNCS = (
+    FSC + ":SuccessiveCancellationDecoder.forward; " + FSC + ":SuccessiveCancellationDecoder.decode_recursive; " + FSC + ":SuccessiveCancellationDecoder.checknode; "
+    + FSC + ":SuccessiveCancellationDecoder.bitnode; " + FSC + ":SuccessiveCancellationDecoder.f2; " + FU + ":min_sum; " + FU + ":sum_product; " + FU + ":sign_to_bin"
 )
-def sc_equals_textbook(ctx, cfg):
+
+
+def _sc_textbook_body(ctx, cfg):
     _, N, k, fz, pi, mask, regime = cfg
     dec = sc_decoder(cfg, regime)
     info = info_positions(cfg)
     imask = [i in info for i in range(N)]
     f = f_minsum if regime == "min_sum" else boxplus
     llr = ctx.reals("llr", (1, N))
-    with_ctx = ctx.sym() if regime == "sum_product" else contextlib.nullcontext()
     u, dlls, cns = sc_textbook(list(P(llr)[0]), imask, 0 if fz else 1, bool(pi), f)
     # preconditions: decision LLRs non-zero (sign(0) has no bit); no check-node message beyond the decoder's clipping threshold
     for v in dlls:
@@ -397,7 +397,8 @@ def sc_equals_textbook(ctx, cfg):
     clip = S.norm(float(dec.clip))
     for v in cns:
         ctx.assume(S.le(S.sabs(v), clip))
-    out = ctx.call(dec.forward, llr)
+    with OS.piecewise(abstract_products=(regime == "sum_product")):
+        out = ctx.call(dec.forward, llr)
     ctx.ensure("returns", out.ok, note=repr(out.exc) if not out.ok else "")
     if not out.ok:
         return
@@ -406,3 +407,124 @@ def sc_equals_textbook(ctx, cfg):
     want[0] = [u[i] for i in info]
     ctx.ensure("equals_textbook_sc", SP.shape_is(out.value, (1, k)) and SP.all_eq(P(out.value), want), note=f"clip={dec.clip}")
     ctx.ensure("input_unmodified", out.unmodified)
+
+
+@obligation("C11.sc_equals_textbook", function=_SC_FUNCS, configs=lambda tier: _sc_cfgs(tier, ("min_sum",)), timeout_ms=60000, crosscheck=3)
+def sc_equals_textbook(ctx, cfg):
+    """min-sum regime: piecewise-linear real arithmetic, for every real LLR vector"""
+    _sc_textbook_body(ctx, cfg)
+
+
+@obligation("C11.sc_equals_textbook_sum_product", function=_SC_FUNCS, configs=lambda tier: _sc_cfgs(tier, ("sum_product",)), timeout_ms=60000, crosscheck=0)
+def sc_equals_textbook_sp(ctx, cfg):
+    """sum-product regime: tanh / atanh / the product of the two tanh values are uninterpreted (with their sign / monotonicity axioms) on both
+    sides; equality follows by congruence.  No differential cross-check here (a z3 model interprets the uninterpreted functions freely);
+    the native differential check of this regime is C11.sc_native."""
+    _sc_textbook_body(ctx, cfg)
+
+
+# ------------------------------------------------------------------------------------------------ noise-free clause, SC
+def noise_free_llr(ctx, x_payload, mags):
+    """llr_j = a_j (1 - 2 x_j), written as a case distinction on the code bit (linear in a_j)"""
+    vals = np.empty(len(x_payload), dtype=object)
+    for j, xj in enumerate(x_payload):
+        a = mags[j] if isinstance(mags, (list, tuple)) else mags
+        vals[j] = S.ite(S.eq(xj, 1), S.mul(-1, a), a)
+    return vals
+
+
+def _nf_cfgs(tier):
+    out = []
+    grid = []
+    for N in (2, 4, 8):
+        grid += [(N, k) for k in range(1, N)]
+    grid += [(16, k) for k in ((1, 5, 8, 12, 15) if tier == "quick" else range(1, 16))]
+    grid += [(32, k) for k in ((16,) if tier == "quick" else (1, 8, 16, 24, 31))]
+    for N, k in grid:
+        for fz, pi in ((0, 0), (1, 1)) + (((0, 1), (1, 0)) if (tier == "thorough" or N <= 4) else ()):
+            for regime in ("min_sum", "sum_product"):
+                for mag in ("uniform", "per_position") if N <= 8 else ("uniform",):
+                    out.append(Cfg("polar", N, k, fz, pi, None, regime, mag))
+    out.append(Cfg("polar", 8, 3, 0, 0, user_mask(8, 3, 0), "min_sum", "per_position"))
+    out.append(Cfg("polar", 8, 5, 1, 1, user_mask(8, 5, 1), "sum_product", "uniform"))
+    return out
+
+
+@obligation("C11.sc_noise_free", function=_SC_FUNCS + "; " + FE + ":PolarCodeEncoder.forward", configs=_nf_cfgs, timeout_ms=60000, crosscheck=0)
+def sc_noise_free(ctx, cfg):
+    """forall messages m, forall magnitudes a > 0 (one common magnitude, or one per position):  SC(a (1 - 2 forward(m))) == m.
+    The codeword comes from the real encoder in the same run.  Sum-product: tanh, atanh and the product are uninterpreted with their sign
+    axioms (DESIGN 4.3); float saturation of tanh is outside the model (C11.sc_native covers magnitudes 0.5..100 natively)."""
+    _, N, k, fz, pi, mask, regime, mag = cfg
+    enc = encoder(cfg)
+    dec = sc_decoder(cfg, regime)
+    m = ctx.bits("m", (1, k))
+    if mag == "uniform":
+        a = ctx.scalar("a", "real")
+        ctx.assume(S.lt(0, a))
+        mags = a
+    else:
+        at = ctx.reals("a", (N,), sampler=lambda r: abs(r.gauss(0, 3)) + 0.01)
+        mags = list(P(at))
+        for v in mags:
+            ctx.assume(S.lt(0, v))
+    cw = ctx.call(enc.forward, m)
+    ctx.ensure("encodes", cw.ok)
+    if not cw.ok:
+        return
+    llr = ctx.tensor(noise_free_llr(ctx, list(P(cw.value)[0]), mags).reshape(1, N))
+    with OS.piecewise(abstract_products=(regime == "sum_product")):
+        out = ctx.call(dec.forward, llr)
+    ctx.ensure("returns", out.ok, note=repr(out.exc) if not out.ok else "")
+    if out.ok:
+        ctx.ensure("decodes_to_message", SP.shape_is(out.value, (1, k)) and SP.all_eq(P(out.value), P(m)))
+
+
+# ================================================================================================ belief propagation (polar)
+_BP = {}
+
+
+def bp_decoder(cfg, regime, iters, early_stop=False):
+    key = (tuple(cfg[:6]), regime, iters, early_stop)
+    if key not in _BP:
+        from kaira.models.fec.decoders.belief_propagation_polar import BeliefPropagationPolarDecoder
+
+        _BP[key] = _quiet(BeliefPropagationPolarDecoder, encoder(cfg), regime=regime, bp_iters=iters, early_stop=early_stop)
+    return _BP[key]
+
+
+_BP_FUNCS = (
+    FBP + ":BeliefPropagationPolarDecoder.forward; " + FBP + ":BeliefPropagationPolarDecoder.decode_iterative; " + FBP + ":BeliefPropagationPolarDecoder.update_left; "
+    + FBP + ":BeliefPropagationPolarDecoder.update_right; " + FBP + ":BeliefPropagationPolarDecoder._initialize_graph; " + FBP + ":BeliefPropagationPolarDecoder.checknode; " + FU + ":llr_to_bits; " + FU + ":min_sum"
+)
+
+
+def _bp_sym_cfgs(tier):
+    out = []
+    for N in (2, 4) + ((8,) if tier == "thorough" else ()):
+        for k in range(1, N):
+            for fz in (0, 1):
+                for iters in (1, 2):
+                    out.append(Cfg("polar", N, k, fz, 0, None, "min_sum", iters))
+    return out
+
+
+@obligation("C11.bp_noise_free", function=_BP_FUNCS, configs=_bp_sym_cfgs, timeout_ms=60000, crosscheck=2)
+def bp_noise_free(ctx, cfg):
+    """forall m, forall a > 0: BP(a (1 - 2 forward(m))) == m   (min-sum check node, 1 and 2 iterations, N <= 4; thorough N = 8)"""
+    _, N, k, fz, pi, mask, regime, iters = cfg
+    enc = encoder(cfg)
+    dec = bp_decoder(cfg, regime, iters)
+    m = ctx.bits("m", (1, k))
+    a = ctx.scalar("a", "real")
+    ctx.assume(S.lt(0, a))
+    cw = ctx.call(enc.forward, m)
+    ctx.ensure("encodes", cw.ok)
+    if not cw.ok:
+        return
+    llr = ctx.tensor(noise_free_llr(ctx, list(P(cw.value)[0]), a).reshape(1, N))
+    with OS.piecewise(abstract_products=(regime == "sum_product")):
+        out = ctx.call(dec.forward, llr)
+    ctx.ensure("returns", out.ok, note=repr(out.exc) if not out.ok else "")
+    if out.ok:
+        ctx.ensure("decodes_to_message", SP.shape_is(out.value, (1, k)) and SP.all_eq(P(out.value), P(m)), note=f"{iters} iteration(s), clip={dec.clip}")
